@@ -16,7 +16,7 @@ from ..snap import abs_value
 from .c13 import Env, item_eq
 
 UNIVERSES = ["str", "int", "tuple_keyfn", "kitem", "kitem_typed", "str_typed", "tuple_typed", "unhashable_keyfn",
-             "repr_keyfn", "repr_keyfn"]
+             "repr_keyfn", "repr_keyfn", "mod_keyfn", "mod_keyfn"]
 BINOPS = ["or", "and", "sub", "xor"]
 CMPOPS = ["le", "lt", "ge", "gt", "eq", "ne", "isdisjoint"]
 INPLACE = ["ior", "iand", "isub", "ixor"]
@@ -143,6 +143,8 @@ class C14(Check):
                 return (k, (it[1] if len(it) > 1 and isinstance(it[1], int) else 0) + 5)
             if isinstance(it, list):
                 return [k, (it[1] if len(it) > 1 and isinstance(it[1], int) else 0) + 5]
+            if u == "mod_keyfn" and isinstance(it, int):
+                return it + 3
             return it
         return env.build(v)
 
@@ -303,7 +305,10 @@ class C14(Check):
                         except TypeError:
                             kk = None
                     if kk is None:
-                        exp_kind = "KeyError" if (env.keyable(arg) or isinstance(arg, (str, int))) else "any_error"
+                        # (an argument the key function cannot be applied to: the lookup fails, with KeyError or with the key
+                        # function's own error -- the statement names no exception class)
+                        exp_kind = "KeyError" if (env.keyable(arg) or (isinstance(arg, (str, int)) and env.universe != "mod_keyfn")) \
+                            else "any_error"
                     else:
                         exp_val = m[kk]
                 elif k is None:
